@@ -7,6 +7,9 @@
 -/
 import BB.Proofs.Forge
 import BB.Proofs.G1Flat
+import BB.Proofs.G13Forge
+import BB.Proofs.G13Body
+import BB.Properties.C06
 import Mathlib.Tactic.FieldSimp
 import Mathlib.Tactic.Ring
 
@@ -402,5 +405,430 @@ example : (forgeBP { segs := [], marker1 := [(0, 1)], SR := .num 10 }).toOption.
 
 example (e : Element) (ch : Chan) (b : BP) (h : b.segs = []) : (e.addBluePrint ch b).err = some .value := by
   simp [Element.addBluePrint, h]
+
+/-! ## G13: C01 at its second observation point, `Sequence.forge()[pos]['content'][1]['data'][ch]`
+
+  All theorems of this section hold for *every* sequence on which `forge` succeeds - in particular
+  for every sequence built through the public API (`Sequence.ApiBuilt`); none needs a
+  well-formedness hypothesis on the channel stores. -/
+
+/-- **C01 for one forged channel, as one statement** (`f` the forged channel of blueprint `b`):
+    the sample rate is a number `sr`, the waituntil segments resolve to the durations `durs` (one
+    per segment), every segment gets `round(d_i·SR) ≥ 2` samples; there is exactly one block per
+    segment, in segment order, and block `i` is segment `i`'s own pulse function applied to its own
+    arguments, `sr` and its own sample count; waveform (all blocks together), marker 1, marker 2
+    and the time axis (`k/SR`, `k < N`) have one common length `N = Σ_i round(d_i·SR)`. -/
+def SegmentwiseForged (b : BP) (f : Forged) : Prop :=
+  ∃ sr durs, b.SR = .num sr ∧ b.resolveWaits = .ok durs ∧ durs.length = b.segs.length ∧
+    (∀ d ∈ durs, 2 ≤ rhe (d * sr)) ∧ f.SR = sr ∧ f.blocks.length = b.segs.length ∧
+    (∀ i (hi : i < b.segs.length) (hd : i < durs.length) (hb : i < f.blocks.length),
+      f.blocks[i] = Blk.call (forgeFn b.segs[i].fn) b.segs[i].args sr (rhe (durs[i] * sr)).toNat) ∧
+    f.blocks.map Blk.len = durs.map (fun d => (rhe (d * sr)).toNat) ∧
+    f.N = sumN (durs.map (fun d => (rhe (d * sr)).toNat)) ∧
+    sumN (f.blocks.map Blk.len) = f.N ∧ f.m1.length = f.N ∧ f.m2.length = f.N
+
+/-- every successful `forgeBP` is segment-wise in the sense of C01 (`forge_structure` and
+    `block_is_own_pulse` about the same `sr`, `durs`) -/
+theorem forge_is_segmentwise (b : BP) (f : Forged) (h : forgeBP b = .ok f) : SegmentwiseForged b f := by
+  obtain ⟨sr, durs, hsr, hd, hlen, h2, hbl, hlens, hN, hm1, hm2, hsum, hfs⟩ := forge_structure b f h
+  refine ⟨sr, durs, hsr, hd, hlen, h2, hfs, hbl, ?_, hlens, hN, hsum, hm1, hm2⟩
+  intro i hi hdi hb
+  obtain ⟨sr', durs', hsr', hd', _, _, hblk⟩ := block_is_own_pulse b f h i hi
+  have e1 : sr' = sr := by rw [hsr] at hsr'; cases hsr'; rfl
+  have e2 : durs' = durs := by rw [hd] at hd'; cases hd'; rfl
+  subst e1 e2
+  exact hblk
+
+/-- helper: channel `k` of the filter-annotated dictionary is channel `k` of `getArrays` -/
+theorem withFilters_channel (s : Sequence) (fl : Bool) (arr : Dict Chan Element.ChOut) (c : Dict Chan ChOutF)
+    (h : s.withFilters fl arr = .ok c) (k : ℕ) (ka : k < arr.length) :
+    ∃ (hc : k < c.length), (c[k]).1 = (arr[k]).1 ∧ (c[k]).2.out = (arr[k]).2 := by
+  obtain ⟨hl, hw⟩ := Sequence.g4_withFilters_getElem s fl arr c h
+  have hc : k < c.length := by omega
+  exact ⟨hc, (hw k ka hc).1, (hw k ka hc).2.1⟩
+
+/-- the lengths of everything delivered for a forged blueprint channel (waveform blocks together,
+    marker 1, marker 2, time axis) are all `N` -/
+theorem outLens_forged (f : Forged) (flg : Option (List ℕ)) (t : Bool)
+    (h1 : f.m1.length = f.N) (h2 : f.m2.length = f.N) (h3 : sumN (f.blocks.map Blk.len) = f.N) :
+    ∀ n ∈ C06.outLens (Element.ChOut.forged f flg t), n = f.N := by
+  intro n hn
+  simp only [C06.outLens, List.mem_cons, List.not_mem_nil, or_false] at hn
+  rcases hn with rfl | rfl | rfl | rfl
+  · exact h3
+  · exact h1
+  · exact h2
+  · rfl
+
+/-- **C01 at `forge()[pos]['content'][1]['data'][ch]`, delays off, element position**: for every
+    position `i+1` holding an element and every blueprint channel `k` of it, the forged output
+    holds under the same channel id - with the stored flags, the time axis iff requested, whatever
+    the filter option - the forged channel `f = forgeBP b` of the stored blueprint, which is
+    segment-wise (`SegmentwiseForged`: one block per segment in order, each the segment's own
+    pulse function on `round(d_i·SR)` points), and everything delivered for the channel - waveform,
+    m1, m2, time axis - has the one length `N = Σ_i round(d_i·SR)`. -/
+theorem seqforge_undelayed_bp_channel (s : Sequence) (fl t : Bool) (out : List (ℕ × ForgedPos))
+    (h : s.forge false fl t = .ok out) (i : ℕ) (hi : i < out.length) (e : Element)
+    (he : Dict.get? s.data ((i + 1 : ℕ) : ℤ) = some (.el e))
+    (k : ℕ) (hk : k < e.chans.length) (b : BP) (hb : (e.chans[k]).2.data = .bp b) :
+    ∃ c sq f, out[i] = (i + 1, { sequencing := sq, isSub := false, content := [(1, c, none)] }) ∧
+      forgeBP b = .ok f ∧ SegmentwiseForged b f ∧
+      ∃ (hc : k < c.length), (c[k]).1 = (e.chans[k]).1 ∧
+        (c[k]).2.out = Element.ChOut.forged f (e.chans[k]).2.flags t ∧
+        ∀ n ∈ C06.outLens (c[k]).2.out, n = f.N := by
+  obtain ⟨en, hen, hpos⟩ := (Sequence.forge_pos s false fl t out h).2 i hi
+  rw [he] at hen
+  cases hen
+  obtain ⟨e', arr, c, sq, h1, h2, h3, _, h5⟩ := Sequence.forgePos_element s false fl t (i + 1) e _ hpos
+  have hee : e' = e := by
+    simp only [Sequence.delayedEl, Bool.false_eq_true, if_false, Except.ok.injEq] at h1
+    exact h1.symm
+  subst hee
+  obtain ⟨hla, hall⟩ := getArrays_delivers_forge e' t arr h2
+  have ka : k < arr.length := by omega
+  obtain ⟨f, hf, harr⟩ := hall k hk ka b hb
+  obtain ⟨hc, w1, w2⟩ := withFilters_channel s fl arr c h3 k ka
+  have hsw := forge_is_segmentwise b f hf
+  have ho : (c[k]).2.out = Element.ChOut.forged f (e'.chans[k]).2.flags t := by rw [w2, harr]
+  refine ⟨c, sq, f, h5, hf, hsw, hc, by rw [w1, harr], ho, ?_⟩
+  rw [ho]
+  obtain ⟨_, _, _, _, _, _, _, _, _, _, _, hs, hm1, hm2⟩ := hsw
+  exact outLens_forged f _ t hm1 hm2 hs
+
+/-- **... delays off, inside a subsequence**: content entry `j` of a subsequence position holds,
+    for every blueprint channel `k` of the subsequence's element `j+1`, that blueprint's own
+    segment-wise forge, all delivered arrays of the one length `N`. -/
+theorem seqforge_undelayed_subsequence_bp_channel (s : Sequence) (fl t : Bool) (out : List (ℕ × ForgedPos))
+    (h : s.forge false fl t = .ok out) (i : ℕ) (hi : i < out.length) (sub : SubSeq)
+    (he : Dict.get? s.data ((i + 1 : ℕ) : ℤ) = some (.sub sub)) (j : ℕ) (hj : j < (out[i]).2.content.length)
+    (e : Element) (hge : Dict.get? sub.data ((j + 1 : ℕ) : ℤ) = some e)
+    (k : ℕ) (hk : k < e.chans.length) (b : BP) (hb : (e.chans[k]).2.data = .bp b) :
+    ∃ c q2 f, (out[i]).2.content[j] = (j + 1, c, some q2) ∧ forgeBP b = .ok f ∧ SegmentwiseForged b f ∧
+      ∃ (hc : k < c.length), (c[k]).1 = (e.chans[k]).1 ∧
+        (c[k]).2.out = Element.ChOut.forged f (e.chans[k]).2.flags t ∧
+        ∀ n ∈ C06.outLens (c[k]).2.out, n = f.N := by
+  obtain ⟨en, hen, hpos⟩ := (Sequence.forge_pos s false fl t out h).2 i hi
+  rw [he] at hen
+  cases hen
+  obtain ⟨_, _, _, _, _, _, hall⟩ := Sequence.forgePos_sub s false fl t (i + 1) sub _ hpos
+  obtain ⟨e0, e', arr, c, q2, hge0, h1, h2, h3, _, hcj⟩ := hall j hj
+  rw [hge] at hge0
+  cases hge0
+  have hee : e' = e := by
+    simp only [Sequence.delayedEl, Bool.false_eq_true, if_false, Except.ok.injEq] at h1
+    exact h1.symm
+  subst hee
+  obtain ⟨hla, hallc⟩ := getArrays_delivers_forge e' t arr h2
+  have ka : k < arr.length := by omega
+  obtain ⟨f, hf, harr⟩ := hallc k hk ka b hb
+  obtain ⟨hc, w1, w2⟩ := withFilters_channel s fl arr c h3 k ka
+  have hsw := forge_is_segmentwise b f hf
+  have ho : (c[k]).2.out = Element.ChOut.forged f (e'.chans[k]).2.flags t := by rw [w2, harr]
+  refine ⟨c, q2, f, hcj, hf, hsw, hc, by rw [w1, harr], ho, ?_⟩
+  rw [ho]
+  obtain ⟨_, _, _, _, _, _, _, _, _, _, _, hs, hm1, hm2⟩ := hsw
+  exact outLens_forged f _ t hm1 hm2 hs
+
+/-- **C01 at `forge()[pos]['content'][1]['data'][ch]`, delays on, element position** - no
+    hypothesis beyond the success of `forge`: for every position `i+1` holding an element `e` and
+    every blueprint channel `k` of it, the delays `ds` looked up by `e`'s own channel ids exist, `e`
+    has a numeric sample rate `sr` (the blueprint's), the *stored* blueprint forges segment-wise to
+    `f`, and the forged output holds under the same channel id (stored flags, time axis iff
+    requested, whatever the filter option) a forged channel `f'` related to `f` by
+    `G13.DelayedForged`: the blocks are the leading `waituntil` of `round(delay·SR)` samples (if
+    `delay > 0`), one block per stored segment in order with the stored sample counts, the trailing
+    zero ramp of `round((maxdelay − delay)·SR)` samples (if `maxdelay > delay`); each padding
+    present has ≥ 2 samples; and everything delivered - waveform, m1, m2, time axis - has the one
+    length `N' = front + N + back`. -/
+theorem seqforge_delayed_bp_channel (s : Sequence) (fl t : Bool) (out : List (ℕ × ForgedPos))
+    (h : s.forge true fl t = .ok out) (i : ℕ) (hi : i < out.length) (e : Element)
+    (he : Dict.get? s.data ((i + 1 : ℕ) : ℤ) = some (.el e))
+    (k : ℕ) (hk : k < e.chans.length) (b : BP) (hb : (e.chans[k]).2.data = .bp b) :
+    ∃ ds sr, e.channels.mapM s.delayOf = .ok ds ∧ e.getSR = .ok (.num sr) ∧ b.SR = .num sr ∧
+      ∃ (hkd : k < ds.length) (c : Dict Chan ChOutF) (sq : SeqSet) (f f' : Forged),
+        s.delayOf (e.chans[k]).1 = .ok ds[k] ∧ 0 ≤ ds[k] ∧ ds[k] ≤ maxR ds ∧
+        out[i] = (i + 1, { sequencing := sq, isSub := false, content := [(1, c, none)] }) ∧
+        forgeBP b = .ok f ∧ SegmentwiseForged b f ∧ G13.DelayedForged b sr ds[k] (maxR ds) f f' ∧
+        ∃ (hc : k < c.length), (c[k]).1 = (e.chans[k]).1 ∧
+          (c[k]).2.out = Element.ChOut.forged f' (e.chans[k]).2.flags t ∧
+          ∀ n ∈ C06.outLens (c[k]).2.out, n = f'.N := by
+  obtain ⟨en, hen, hpos⟩ := (Sequence.forge_pos s true fl t out h).2 i hi
+  rw [he] at hen
+  cases hen
+  obtain ⟨e', arr, c, sq, h1, h2, h3, _, h5⟩ := Sequence.forgePos_element s true fl t (i + 1) e _ hpos
+  have hde : s.delayElement e = .ok e' := by simpa [Sequence.delayedEl] using h1
+  obtain ⟨ds, sr, hds, hsr, hbsr, hkd, ka, f, f', hdk, h0, hle, hf, harr, hdf⟩ :=
+    G13.delayed_element_bp_structure s e e' hde t arr h2 k hk b hb
+  obtain ⟨hc, w1, w2⟩ := withFilters_channel s fl arr c h3 k ka
+  have ho : (c[k]).2.out = Element.ChOut.forged f' (e.chans[k]).2.flags t := by rw [w2, harr]
+  refine ⟨ds, sr, hds, hsr, hbsr, hkd, c, sq, f, f', hdk, h0, hle, h5, hf, forge_is_segmentwise b f hf, hdf, hc,
+    by rw [w1, harr], ho, ?_⟩
+  rw [ho]
+  obtain ⟨_, _, _, _, _, _, hm1, hm2, hs⟩ := hdf
+  exact outLens_forged f' _ t hm1 hm2 hs
+
+/-- **... delays on, inside a subsequence**: the same for content entry `j` of a subsequence
+    position and blueprint channel `k` of the subsequence's element `j+1`; the delays are looked up
+    in the *parent's* settings by that element's own channel ids. -/
+theorem seqforge_delayed_subsequence_bp_channel (s : Sequence) (fl t : Bool) (out : List (ℕ × ForgedPos))
+    (h : s.forge true fl t = .ok out) (i : ℕ) (hi : i < out.length) (sub : SubSeq)
+    (he : Dict.get? s.data ((i + 1 : ℕ) : ℤ) = some (.sub sub)) (j : ℕ) (hj : j < (out[i]).2.content.length)
+    (e : Element) (hge : Dict.get? sub.data ((j + 1 : ℕ) : ℤ) = some e)
+    (k : ℕ) (hk : k < e.chans.length) (b : BP) (hb : (e.chans[k]).2.data = .bp b) :
+    ∃ ds sr, e.channels.mapM s.delayOf = .ok ds ∧ e.getSR = .ok (.num sr) ∧ b.SR = .num sr ∧
+      ∃ (hkd : k < ds.length) (c : Dict Chan ChOutF) (q2 : SeqSet) (f f' : Forged),
+        s.delayOf (e.chans[k]).1 = .ok ds[k] ∧ 0 ≤ ds[k] ∧ ds[k] ≤ maxR ds ∧
+        (out[i]).2.content[j] = (j + 1, c, some q2) ∧
+        forgeBP b = .ok f ∧ SegmentwiseForged b f ∧ G13.DelayedForged b sr ds[k] (maxR ds) f f' ∧
+        ∃ (hc : k < c.length), (c[k]).1 = (e.chans[k]).1 ∧
+          (c[k]).2.out = Element.ChOut.forged f' (e.chans[k]).2.flags t ∧
+          ∀ n ∈ C06.outLens (c[k]).2.out, n = f'.N := by
+  obtain ⟨en, hen, hpos⟩ := (Sequence.forge_pos s true fl t out h).2 i hi
+  rw [he] at hen
+  cases hen
+  obtain ⟨_, _, _, _, _, _, hall⟩ := Sequence.forgePos_sub s true fl t (i + 1) sub _ hpos
+  obtain ⟨e0, e', arr, c, q2, hge0, h1, h2, h3, _, hcj⟩ := hall j hj
+  rw [hge] at hge0
+  cases hge0
+  have hde : s.delayElement e = .ok e' := by simpa [Sequence.delayedEl] using h1
+  obtain ⟨ds, sr, hds, hsr, hbsr, hkd, ka, f, f', hdk, h0, hle, hf, harr, hdf⟩ :=
+    G13.delayed_element_bp_structure s e e' hde t arr h2 k hk b hb
+  obtain ⟨hc, w1, w2⟩ := withFilters_channel s fl arr c h3 k ka
+  have ho : (c[k]).2.out = Element.ChOut.forged f' (e.chans[k]).2.flags t := by rw [w2, harr]
+  refine ⟨ds, sr, hds, hsr, hbsr, hkd, c, q2, f, f', hdk, h0, hle, hcj, hf, forge_is_segmentwise b f hf, hdf, hc,
+    by rw [w1, harr], ho, ?_⟩
+  rw [ho]
+  obtain ⟨_, _, _, _, _, _, hm1, hm2, hs⟩ := hdf
+  exact outLens_forged f' _ t hm1 hm2 hs
+
+/-- **the middle blocks of a delayed channel are the stored segments' blocks, one per segment in
+    order** (the list `mkBlocks sr (segs.map (shiftWait delay)) …` that `G13.DelayedForged` names):
+    block `i` is segment `i`'s own pulse function on the same number of points as block `i` of the
+    stored blueprint's forge; its arguments are the stored ones, except that a `waituntil`
+    segment's (unused) target is moved by the delay. -/
+theorem delayed_middle_blocks (b : BP) (f : Forged) (hsw : SegmentwiseForged b f) (sr' delay : ℚ) (i : ℕ)
+    (hi : i < b.segs.length) :
+    ∃ (h1 : i < (mkBlocks sr' (b.segs.map (Element.shiftWait delay)) (f.blocks.map Blk.len)).length)
+      (h2 : i < f.blocks.length),
+      (mkBlocks sr' (b.segs.map (Element.shiftWait delay)) (f.blocks.map Blk.len))[i] =
+        Blk.call (forgeFn b.segs[i].fn) (Element.shiftWait delay b.segs[i]).args sr' (f.blocks[i]).len ∧
+      (¬ b.segs[i].fn.isWait = true → (Element.shiftWait delay b.segs[i]).args = b.segs[i].args) := by
+  obtain ⟨_, _, _, _, _, _, _, hbl, _⟩ := hsw
+  have hl : (mkBlocks sr' (b.segs.map (Element.shiftWait delay)) (f.blocks.map Blk.len)).length = b.segs.length := by
+    rw [mkBlocks_length _ _ _ (by simp [hbl])]; simp
+  have h1 : i < (mkBlocks sr' (b.segs.map (Element.shiftWait delay)) (f.blocks.map Blk.len)).length := by omega
+  have h2 : i < f.blocks.length := by omega
+  refine ⟨h1, h2, ?_, fun hw => by rw [shiftWait_nonwait delay _ hw]⟩
+  rw [mkBlocks_getElem sr' _ _ i (by simpa using hi) (by simpa using h2) h1]
+  simp only [List.getElem_map, shiftWait_isWait]
+
+/-- **whole-sample delays: the common length is `Σ_i round(d_i·SR) + M`** (element position): if
+    the delay of channel `k` and the largest delay are the whole sample counts `D = ds[k]·SR` and
+    `M = max(ds)·SR` (positive sample rate), then `D ≤ M`, each padding is absent or at least two
+    samples long, and waveform, m1, m2 and time axis of the forged channel all have exactly
+    `N + M` samples, `N = Σ_i round(d_i·SR)` the stored blueprint's own length; the block lengths
+    are `[D] ++ (round(d_i·SR))_i ++ [M − D]` (a padding of 0 samples is absent). -/
+theorem seqforge_delayed_bp_channel_whole (s : Sequence) (fl t : Bool) (out : List (ℕ × ForgedPos))
+    (h : s.forge true fl t = .ok out) (i : ℕ) (hi : i < out.length) (e : Element)
+    (he : Dict.get? s.data ((i + 1 : ℕ) : ℤ) = some (.el e))
+    (k : ℕ) (hk : k < e.chans.length) (b : BP) (hb : (e.chans[k]).2.data = .bp b)
+    (ds : List ℚ) (hds : e.channels.mapM s.delayOf = .ok ds) (sr : ℚ) (hsr : e.getSR = .ok (.num sr)) (hsr0 : 0 < sr)
+    (hkd : k < ds.length) (D M : ℕ) (hD : ds[k] * sr = D) (hM : maxR ds * sr = M) :
+    ∃ c sq f f', out[i] = (i + 1, { sequencing := sq, isSub := false, content := [(1, c, none)] }) ∧
+      forgeBP b = .ok f ∧ SegmentwiseForged b f ∧ D ≤ M ∧ (D = 0 ∨ 2 ≤ D) ∧ (M - D = 0 ∨ 2 ≤ M - D) ∧
+      f'.blocks.map Blk.len = (if 0 < D then [D] else []) ++ f.blocks.map Blk.len ++ (if 0 < M - D then [M - D] else []) ∧
+      ∃ (hc : k < c.length), (c[k]).1 = (e.chans[k]).1 ∧
+        (c[k]).2.out = Element.ChOut.forged f' (e.chans[k]).2.flags t ∧
+        ∀ n ∈ C06.outLens (c[k]).2.out, n = f.N + M := by
+  obtain ⟨ds', sr', hds', hsr', _, hkd', c, sq, f, f', _, _, _, h5, hf, hsw, hdf, hc, w1, ho, hlen⟩ :=
+    seqforge_delayed_bp_channel s fl t out h i hi e he k hk b hb
+  have e1 : ds' = ds := by rw [hds] at hds'; cases hds'; rfl
+  have e2 : sr' = sr := by rw [hsr] at hsr'; cases hsr'; rfl
+  subst e1 e2
+  have hle := C10.whole_delay_le ds' sr' hsr0 k hkd D M hD hM
+  obtain ⟨hN, _, _, _, hbl, hfr, hbk⟩ := G13.delayedForged_whole b sr' ds'[k] (maxR ds') f f' hdf D M hsr0 hD hM hle
+  refine ⟨c, sq, f, f', h5, hf, hsw, hle, hfr, hbk, hbl, hc, w1, ho, fun n hn => ?_⟩
+  rw [hlen n hn, hN]
+
+/-- **... whole-sample delays, inside a subsequence**: the same for content entry `j` of a
+    subsequence position - all arrays of the channel have `N + M` samples, `M = max(ds)·SR` the
+    largest delay among the channels of *that* inner element. -/
+theorem seqforge_delayed_subsequence_bp_channel_whole (s : Sequence) (fl t : Bool) (out : List (ℕ × ForgedPos))
+    (h : s.forge true fl t = .ok out) (i : ℕ) (hi : i < out.length) (sub : SubSeq)
+    (he : Dict.get? s.data ((i + 1 : ℕ) : ℤ) = some (.sub sub)) (j : ℕ) (hj : j < (out[i]).2.content.length)
+    (e : Element) (hge : Dict.get? sub.data ((j + 1 : ℕ) : ℤ) = some e)
+    (k : ℕ) (hk : k < e.chans.length) (b : BP) (hb : (e.chans[k]).2.data = .bp b)
+    (ds : List ℚ) (hds : e.channels.mapM s.delayOf = .ok ds) (sr : ℚ) (hsr : e.getSR = .ok (.num sr)) (hsr0 : 0 < sr)
+    (hkd : k < ds.length) (D M : ℕ) (hD : ds[k] * sr = D) (hM : maxR ds * sr = M) :
+    ∃ c q2 f f', (out[i]).2.content[j] = (j + 1, c, some q2) ∧
+      forgeBP b = .ok f ∧ SegmentwiseForged b f ∧ D ≤ M ∧ (D = 0 ∨ 2 ≤ D) ∧ (M - D = 0 ∨ 2 ≤ M - D) ∧
+      f'.blocks.map Blk.len = (if 0 < D then [D] else []) ++ f.blocks.map Blk.len ++ (if 0 < M - D then [M - D] else []) ∧
+      ∃ (hc : k < c.length), (c[k]).1 = (e.chans[k]).1 ∧
+        (c[k]).2.out = Element.ChOut.forged f' (e.chans[k]).2.flags t ∧
+        ∀ n ∈ C06.outLens (c[k]).2.out, n = f.N + M := by
+  obtain ⟨ds', sr', hds', hsr', _, hkd', c, q2, f, f', _, _, _, h5, hf, hsw, hdf, hc, w1, ho, hlen⟩ :=
+    seqforge_delayed_subsequence_bp_channel s fl t out h i hi sub he j hj e hge k hk b hb
+  have e1 : ds' = ds := by rw [hds] at hds'; cases hds'; rfl
+  have e2 : sr' = sr := by rw [hsr] at hsr'; cases hsr'; rfl
+  subst e1 e2
+  have hle := C10.whole_delay_le ds' sr' hsr0 k hkd D M hD hM
+  obtain ⟨hN, _, _, _, hbl, hfr, hbk⟩ := G13.delayedForged_whole b sr' ds'[k] (maxR ds') f f' hdf D M hsr0 hD hM hle
+  refine ⟨c, q2, f, f', h5, hf, hsw, hle, hfr, hbk, hbl, hc, w1, ho, fun n hn => ?_⟩
+  rw [hlen n hn, hN]
+
+/-- `maxR` of a list of zeros is zero -/
+theorem maxR_zeros (ds : List ℚ) (h : ∀ d ∈ ds, d = 0) : maxR ds = 0 := by
+  cases ds with
+  | nil => rfl
+  | cons d t => exact h _ (Paths.maxR_mem (d :: t) (by simp))
+
+/-- **delays on but all zero: the common length is `Σ_i round(d_i·SR)` again** (element position):
+    when every channel's declared delay is 0 (or absent), nothing is inserted - the forged channel
+    has exactly the stored blueprint's block lengths, and waveform, m1, m2 and time axis all have
+    `N = Σ_i round(d_i·SR)` samples - as with delays off. -/
+theorem seqforge_zero_delays_bp_channel (s : Sequence) (hz : ∀ ch, s.delayOf ch = .ok 0) (fl t : Bool)
+    (out : List (ℕ × ForgedPos)) (h : s.forge true fl t = .ok out) (i : ℕ) (hi : i < out.length) (e : Element)
+    (he : Dict.get? s.data ((i + 1 : ℕ) : ℤ) = some (.el e))
+    (k : ℕ) (hk : k < e.chans.length) (b : BP) (hb : (e.chans[k]).2.data = .bp b) :
+    ∃ c sq f f', out[i] = (i + 1, { sequencing := sq, isSub := false, content := [(1, c, none)] }) ∧
+      forgeBP b = .ok f ∧ SegmentwiseForged b f ∧ f'.blocks.map Blk.len = f.blocks.map Blk.len ∧
+      ∃ (hc : k < c.length), (c[k]).1 = (e.chans[k]).1 ∧
+        (c[k]).2.out = Element.ChOut.forged f' (e.chans[k]).2.flags t ∧
+        ∀ n ∈ C06.outLens (c[k]).2.out, n = f.N := by
+  obtain ⟨ds, sr, hds, hsr, _, hkd, c, sq, f, f', hdk, _, _, h5, hf, hsw, hdf, hc, w1, ho, hlen⟩ :=
+    seqforge_delayed_bp_channel s fl t out h i hi e he k hk b hb
+  have hall : ∀ d ∈ ds, d = 0 := by
+    intro d hd
+    obtain ⟨j, hj, rfl⟩ := List.getElem_of_mem hd
+    have hl := mapM_ok_length _ _ _ hds
+    have := mapM_ok_getElem _ _ _ hds j (by omega) hj
+    rw [hz] at this
+    exact (Except.ok.inj this).symm
+  have hk0 : ds[k] = 0 := hall _ (List.getElem_mem hkd)
+  have hm0 : maxR ds = 0 := maxR_zeros ds hall
+  obtain ⟨_, hbl, hlm, _, _, hN, _, _, _⟩ := hdf
+  rw [hk0, hm0] at hbl hN
+  rw [hk0] at hlm
+  simp only [lt_self_iff_false, if_false, sub_self, List.nil_append, List.append_nil, Nat.zero_add, Nat.add_zero] at hbl hN
+  refine ⟨c, sq, f, f', h5, hf, hsw, by rw [hbl, hlm], hc, w1, ho, fun n hn => ?_⟩
+  rw [hlen n hn, hN]
+
+/-! ### "whatever the edit history", at `Element.getArrays` and `Sequence.forge` -/
+
+/-- **`Element.getArrays`, `validateDurations`, `points` and `duration` do not look at segment
+    names**: two elements that list the same channels in the same order, channel by channel with
+    the same flags and - for blueprint channels - blueprints with equal bodies (same per-segment
+    function, arguments, duration, markers; same absolute markers and sample rate; the segment
+    *names*, the only history-dependent part, may differ) deliver the same arrays (or raise the
+    same exception), validate alike, and have the same points and duration.  Lifts
+    `Proofs/Body.forgeBP_body`. -/
+theorem getArrays_ignores_names (e e' : Element) (h : ElBody e e') (t : Bool) :
+    e.getArrays t = e'.getArrays t ∧ e.validate = e'.validate ∧ e.points = e'.points ∧
+      e.duration = e'.duration ∧ e.channels = e'.channels :=
+  ⟨h.getArrays t, h.validate, h.points, h.duration, h.channels⟩
+
+/-- **`Sequence.forge` does not look at segment names**: two sequences whose stores hold, position
+    by position in the same order, elements (or subsequences of elements) equal up to the segment
+    names of their blueprints, with the same AWG settings and sequencing, forge identically - the
+    same arrays for every position and channel or the same exception - for every combination of
+    `apply_delays`, `apply_filters`, `includetime`. -/
+theorem seqforge_ignores_names (a b : Sequence) (hd : Dict.Rel EntBody a.data b.data)
+    (hs : a.awgspecs = b.awgspecs) (hq : a.sequencing = b.sequencing) (d f t : Bool) :
+    a.forge d f t = b.forge d f t :=
+  Sequence.forge_body a b hd (fun k => by rw [hs]) (fun k => by rw [hq]) d f t
+
+/-- how such pairs arise, one public call at a time: `addBluePrint` with blueprints of equal bodies
+    (e.g. the same segments inserted under different names, or renamed by another edit history)
+    and `addElement` keep "equal up to names", and are accepted or refused alike. -/
+theorem same_calls_equal_up_to_names (e e' : Element) (h : ElBody e e') (ch : Chan) (p q : BP) (hpq : BP.BodyEq p q)
+    (s s' : Sequence) (hd : Dict.Rel EntBody s.data s'.data) (hq : s.sequencing = s'.sequencing) (pos : ℤ) :
+    (e.addBluePrint ch p).err = (e'.addBluePrint ch q).err ∧
+    ElBody (e.addBluePrint ch p).st (e'.addBluePrint ch q).st ∧
+    (s.addElement pos e).err = (s'.addElement pos e').err ∧
+    Dict.Rel EntBody (s.addElement pos e).st.data (s'.addElement pos e').st.data ∧
+    (s.addElement pos e).st.sequencing = (s'.addElement pos e').st.sequencing :=
+  ⟨(addBluePrint_body h ch hpq).1, (addBluePrint_body h ch hpq).2, (addElement_body hd hq pos h).1,
+    (addElement_body hd hq pos h).2.1, (addElement_body hd hq pos h).2.2.1⟩
+
+/-! ### non-vacuity of the G13 theorems -/
+
+/-- `exampleBP` with every segment renamed (another edit history of the same blueprint) -/
+def exampleBPRenamed : BP :=
+  { exampleBP with segs := exampleBP.segs.map (fun sg => { sg with name := "x" ++ sg.name }) }
+
+example : BP.BodyEq exampleBP exampleBPRenamed ∧ exampleBP ≠ exampleBPRenamed := by
+  constructor
+  · exact ⟨by decide +kernel, rfl, rfl, rfl⟩
+  · decide +kernel
+
+/-- a sequence at 10 Sa/s holding a one-channel element at position 1 and, inside a subsequence at
+    position 2, once more -/
+def seqWith (specs : Dict String Spec) (bp : BP) : Sequence :=
+  { data := [(1, .el (({} : Element).addBluePrint (.int 1) bp).st),
+             (2, .sub { data := [(1, (({} : Element).addBluePrint (.int 1) bp).st)], sequencing := [(1, ⟨0, 2, 0, 0, 0⟩)],
+                        awgspecs := [("SR", .val (.num 10))] })],
+    sequencing := [(1, ⟨0, 1, 0, 0, 0⟩), (2, ⟨0, 3, 0, 0, 1⟩)],
+    awgspecs := specs }
+
+/-- channel 1 delayed by 2 samples -/
+def wholeSeq : Sequence := seqWith [("SR", .val (.num 10)), ("channel1_delay", .val (.num (1/5)))] exampleBP
+/-- no delay settings at all -/
+def zeroSeq : Sequence := seqWith [("SR", .val (.num 10))] exampleBP
+
+/-- the hypotheses of the `seqforge_*` theorems hold: forging succeeds with delays off and on,
+    position 1 holds the example element, channel index 0 is (the stored copy of) the example
+    blueprint; the delays are `[1/5]` = 2 samples at 10 Sa/s -/
+example : (wholeSeq.forge false false true).toOption.isSome = true ∧
+    (wholeSeq.forge true true true).toOption.isSome = true ∧
+    Dict.get? wholeSeq.data ((0 + 1 : ℕ) : ℤ) = some (.el exampleEl) ∧
+    (exampleEl.chans[0]'(by decide)).2.data = .bp exampleBP.copy ∧
+    exampleEl.channels.mapM wholeSeq.delayOf = .ok [1/5] ∧ exampleEl.getSR = .ok (.num 10) ∧
+    ((1 : ℚ) / 5) * 10 = (2 : ℕ) ∧ maxR [1/5] * 10 = (2 : ℕ) := by
+  refine ⟨by decide +kernel, by decide +kernel, rfl, by decide +kernel, by decide +kernel,
+    by decide +kernel, by norm_num, by norm_num [maxR]⟩
+
+/-- ... and for the subsequence theorems: position 2 holds a subsequence whose position 1 holds the
+    example element -/
+example : ∃ sub : SubSeq, Dict.get? wholeSeq.data ((1 + 1 : ℕ) : ℤ) = some (.sub sub) ∧
+    Dict.get? sub.data ((0 + 1 : ℕ) : ℤ) = some exampleEl :=
+  ⟨_, rfl, by decide +kernel⟩
+
+/-- what comes out: block lengths and the four lengths (waveform, m1, m2, time axis) of channel 1 at
+    the element position and inside the subsequence - `24 + 26 + 15 = 65` with delays off, and
+    `[2] ++ [24, 26, 15]` = `65 + 2` with the 2-sample delay (no trailing ramp: the only channel has
+    the largest delay) -/
+example :
+    (wholeSeq.forge false false true).toOption.map (fun out => out.map (fun p => p.2.content.map (fun c =>
+      c.2.1.map (fun x => (match x.2.out with | .forged f _ _ => f.blocks.map Blk.len | _ => [], C06.outLens x.2.out))))) =
+      some [[[([24, 26, 15], [65, 65, 65, 65])]], [[([24, 26, 15], [65, 65, 65, 65])]]] ∧
+    (wholeSeq.forge true false true).toOption.map (fun out => out.map (fun p => p.2.content.map (fun c =>
+      c.2.1.map (fun x => (match x.2.out with | .forged f _ _ => f.blocks.map Blk.len | _ => [], C06.outLens x.2.out))))) =
+      some [[[([2, 24, 26, 15], [67, 67, 67, 67])]], [[([2, 24, 26, 15], [67, 67, 67, 67])]]] := by
+  constructor <;> decide +kernel
+
+/-- `seqforge_zero_delays_bp_channel`: a sequence without delay settings satisfies the hypothesis,
+    and forging with delays on succeeds -/
+example : (∀ ch, zeroSeq.delayOf ch = .ok 0) ∧ (zeroSeq.forge true false false).toOption.isSome = true := by
+  constructor
+  · apply C10.delays_zero_of_specs
+    intro ch
+    left
+    have h1 : keyOf ch "delay" ≠ "SR" := Sequence.g4_keyOf_ne_SR ch _
+    simp [zeroSeq, seqWith, Dict.get?, List.find?, h1.symm]
+  · decide +kernel
+
+/-- `seqforge_ignores_names` applied: the same sequence built from the renamed blueprint is related
+    position by position, differs as a value, and forges identically -/
+example : Dict.Rel EntBody wholeSeq.data (seqWith wholeSeq.awgspecs exampleBPRenamed).data := by
+  have hb : BP.BodyEq exampleBP exampleBPRenamed := ⟨by decide +kernel, rfl, rfl, rfl⟩
+  have hel : ElBody (({} : Element).addBluePrint (.int 1) exampleBP).st
+      (({} : Element).addBluePrint (.int 1) exampleBPRenamed).st :=
+    (addBluePrint_body (ElBody.refl {}) (.int 1) hb).2
+  refine List.Forall₂.cons ⟨rfl, hel⟩ (List.Forall₂.cons ⟨rfl, ?_⟩ List.Forall₂.nil)
+  exact ⟨List.Forall₂.cons ⟨rfl, hel⟩ List.Forall₂.nil, fun _ => rfl, fun _ => rfl⟩
+
+example : wholeSeq.data.map (fun p => match p.2 with | .el e => some e | .sub _ => none) ≠
+    (seqWith wholeSeq.awgspecs exampleBPRenamed).data.map (fun p => match p.2 with | .el e => some e | .sub _ => none) := by
+  decide +kernel
 
 end BB.C01
